@@ -247,6 +247,9 @@ extern int _dispatch_verif_unusual(int id);
 		atomic_fetch_##o##_explicit(_os_atomic_c11_atomic(_dvp), v, \
 		memory_order_##m); _DV_POST(_dvp); _dvr; })
 #endif // DISPATCH_VERIF_TSAN
+#else // DISPATCH_VERIF
+#define DISPATCH_VERIF_PROBE(id) ((void)0)
+#define DISPATCH_VERIF_UNUSUAL(id) 0
 #endif // DISPATCH_VERIF
 
 #endif // __DISPATCH_SHIMS_ATOMIC__
